@@ -279,7 +279,8 @@ def make_o1():
 
 
 # ---- O3: reporting through the evaluators / formatter filter
-RTYPES = ["make_fail", "make_pass", "make_info", "make_fingerprint", "make_none", "make_metadata", "skip"]
+RTYPES = ["make_fail", "make_pass", "make_info", "make_fingerprint", "make_none", "make_metadata", "skip", "make_metadata_key"]
+MK_NAMES = ["info", "pass"]        # a metadata key may be named like a result section; the section's rule results must survive
 HEADING = {"rule": "reports", "fingerprint": "fingerprints", "pass": "pass", "info": "info", "none": "none"}
 SHOW = ["rule", "pass", "info", "none", "fingerprint", "metadata"]
 
@@ -296,6 +297,8 @@ def build_rules(specs):
                 return plugins.make_metadata(**{"m%d" % _i: _i})
             if _kind == "make_none":
                 return None
+            if _kind == "make_metadata_key":
+                return plugins.make_metadata_key(MK_NAMES[_key], _i)
             return getattr(plugins, _kind)("KEY%d" % _key, n=_i)
         report.__name__ = report.__qualname__ = "report%d" % i
         report.__symx_order__ = 10 + i
@@ -313,6 +316,8 @@ def judge_report(specs, rules, response, missing, show, evname):
         name = dr.get_name(rules[i])
         if kind == "skip":
             skips.append(name)
+        elif kind == "make_metadata_key":
+            pass                      # not one of the statement's result types; it must not disturb the others
         elif kind == "make_metadata":
             meta["m%d" % i] = i
         else:
@@ -328,6 +333,8 @@ def judge_report(specs, rules, response, missing, show, evname):
         expected.pop("none", None)
     for h in HEADING.values():
         got = response.get(h, [])
+        if not isinstance(got, list):
+            got = []                  # a metadata key of that name and no rule result of that type
         exp = expected.get(h, [])
         got_l = [(g.get("component"), g.get("key"), g.get("type")) for g in got]
         exp_l = [(n, k, t) for n, k, t, i in exp]
